@@ -164,7 +164,8 @@ func (core *JApiCore) processEOF() *jerr.JApiError {
 	if je := core.processCurrentDirective(); je != nil {
 		return je
 	}
-	if core.HasUnclosedExplicitContext() {
+	// An included file may end inside an explicit context that the including file closes.
+	if core.scannersStack.Empty() && core.HasUnclosedExplicitContext() {
 		return core.japiError(jerr.ContextNotClosed, core.scanner.CurrentIndex()-1)
 	}
 	return nil
